@@ -111,6 +111,7 @@ def gen():
 
     ctor = body_of(oklfor, r"oklForStatement::oklForStatement\(forStatement\s*&forSmnt_,[^{]*\{", "oklForStatement ctor")
     zero_step = bool(re.search(r"updateValue\s*&&\s*updateValue->canEvaluate\(\)\s*&&\s*!\(\(bool\)\s*updateValue->evaluate\(\)\)", ctor))
+    direction = bool(re.search(r"iteratorOnSmallerSide\s*!=\s*positiveUpdate", ctor))
     both_attrs = bool(re.search(r"valid\s*=\s*\(\s*!\(hasInner\s*&&\s*hasOuter\)\s*&&\s*hasValidInit\(\)", ctor))
     brk = body_of(okl, r"bool\s+kernelHasValidLoopBreakAndContinue\(functionDeclStatement\s*&kernelSmnt\)\s*\{", "kernelHasValidLoopBreakAndContinue")
     cont_skips = bool(re.search(r"\(sType\s*&\s*statementType::switch_\)\s*&&\s*\(smnt->type\(\)\s*&\s*statementType::break_\)", brk))
@@ -152,6 +153,7 @@ def gen():
            "def maxNestChecked : Bool := " + b(max_nest),
            "def bothAttrsInvalid : Bool := " + b(both_attrs),
            "def barrierLooksUp : Bool := " + b(looks_up),
+           "def directionChecked : Bool := " + b(direction),
            "/-- translators whose source calls attributes::atomic::applyCodeTransformation -/",
            "def atomicRewriters : List String := [%s]" % ", ".join(s(x) for x in atomics),
            "def ompPragma : String := " + s(omp_pragma),
